@@ -30,7 +30,7 @@ theorem getD_centerMask (n l : Nat) (h : l ≤ n) (i : Nat) :
   · have : i < n := by omega
     simp [hc, this]
   · have : ¬ (i < n ∧ (n - l + 1) / 2 ≤ i ∧ i < (n - l + 1) / 2 + l) := fun hh => hc hh.2
-    simp [hc, this]
+    simp [hc]
 
 theorem length_centerMask (n : Nat) (l : Int) : (centerMask n l).length = n := by
   simp [centerMask, length_sliceMask]
@@ -86,7 +86,7 @@ theorem centerMask_full (n : Nat) : centerMask n (n : Int) = List.replicate n tr
     simp only [Option.getD_some] at h1
     rw [h1]
     have : (n - n + 1) / 2 ≤ i ∧ i < (n - n + 1) / 2 + n := by omega
-    simp [this, hi]
+    simp [hi]
   · rw [List.getElem?_eq_none (by rw [length_centerMask]; omega),
       List.getElem?_eq_none (by simp; omega)]
 
@@ -108,29 +108,25 @@ theorem length_zeroPadRow (n l : Nat) (r : List Bool) (h : zeroPadRow n l = some
 
 /-! ### Magic glue -/
 
-theorem roundDiv_pos (a b : Nat) (ha : 0 < a) (hb : 0 < b) (hab : b ≤ 2 * a) : roundDiv a b ≠ 0 := by
+theorem roundDiv_pos (a b : Nat) (hb : 0 < b) (hab : b ≤ a) : roundDiv a b ≠ 0 := by
   unfold roundDiv
-  have hdm := Nat.div_add_mod a b
-  by_cases hq : a / b = 0
-  · -- a < b ≤ 2a : remainder a, 2a ≥ b
-    have hlt : a < b := (Nat.div_eq_zero_iff_lt hb).mp hq
-    have hm : a % b = a := Nat.mod_eq_of_lt hlt
-    simp only [hq, hm]
-    split
+  have hq : 1 ≤ a / b := (Nat.le_div_iff_mul_le hb).mpr (by omega)
+  simp only []
+  split
+  · omega
+  · split
     · omega
-    · split
-      · omega
-      · simp
-  · simp only []
-    split
-    · exact hq
-    · split <;> [omega; (split <;> omega)]
+    · split <;> omega
 
 /-! ### discs -/
 
 theorem sq_neg (a : Int) : sq (-a) = sq a := by unfold sq; exact Int.neg_mul_neg a a
 
-theorem sq_nonneg (a : Int) : 0 ≤ sq a := Int.mul_self_nonneg a
+theorem sq_nonneg (a : Int) : 0 ≤ sq a := by
+  unfold sq
+  by_cases h : 0 ≤ a
+  · exact Int.mul_nonneg h h
+  · rw [← Int.neg_mul_neg]; exact Int.mul_nonneg (by omega) (by omega)
 
 theorem abs_lt_of_sq_lt (a r : Int) (h0 : 0 ≤ r) (h : sq a < sq r) : -r < a ∧ a < r := by
   unfold sq at h
@@ -266,8 +262,8 @@ theorem length_orL (p a : List Bool) (hl : p.length = a.length) : (orL p a).leng
   unfold orL; simp [hl]
 
 theorem append_subset (a b a' b' : List Bool) (hl : a.length = a'.length)
-    (ha : ∀ j, a[j]? = some true → a'[j]? = some true) (hb : ∀ j, b[j]? = some true → b'[j]? = some true) :
-    ∀ i, (a ++ b)[i]? = some true → (a' ++ b')[i]? = some true := by
+    (ha : ∀ j : Nat, a[j]? = some true → a'[j]? = some true) (hb : ∀ j : Nat, b[j]? = some true → b'[j]? = some true) :
+    ∀ i : Nat, (a ++ b)[i]? = some true → (a' ++ b')[i]? = some true := by
   intro i h
   by_cases hi : i < a.length
   · rw [List.getElem?_append_left hi] at h
@@ -281,8 +277,8 @@ theorem tileRows_succ {α} (r : Nat) (x : List α) : tileRows (r + 1) x = x ++ t
   simp [tileRows, List.replicate_succ]
 
 theorem tileRows_subset (r : Nat) (a b : List Bool) (hl : a.length = b.length)
-    (h : ∀ j, a[j]? = some true → b[j]? = some true) :
-    ∀ i, (tileRows r a)[i]? = some true → (tileRows r b)[i]? = some true := by
+    (h : ∀ j : Nat, a[j]? = some true → b[j]? = some true) :
+    ∀ i : Nat, (tileRows r a)[i]? = some true → (tileRows r b)[i]? = some true := by
   induction r with
   | zero => intro i hi; simp [tileRows] at hi
   | succ r ih =>
@@ -290,8 +286,8 @@ theorem tileRows_subset (r : Nat) (a b : List Bool) (hl : a.length = b.length)
     exact append_subset a _ b _ hl h ih
 
 theorem flatten_map_subset {α} (l : List α) (f g : α → List Bool)
-    (h : ∀ p ∈ l, (f p).length = (g p).length ∧ ∀ j, (f p)[j]? = some true → (g p)[j]? = some true) :
-    ∀ i, (l.map f).flatten[i]? = some true → (l.map g).flatten[i]? = some true := by
+    (h : ∀ p ∈ l, (f p).length = (g p).length ∧ ∀ j : Nat, (f p)[j]? = some true → (g p)[j]? = some true) :
+    ∀ i : Nat, (l.map f).flatten[i]? = some true → (l.map g).flatten[i]? = some true := by
   induction l with
   | nil => intro i hi; simp at hi
   | cons p ps ih =>
@@ -320,8 +316,8 @@ theorem frameData_length (fam : Family) (rows cols : Nat) (pat : List Bool) (h :
   · exact h
 
 theorem frameData_subset (fam : Family) (rows : Nat) (a b : List Bool) (hl : a.length = b.length)
-    (h : ∀ j, a[j]? = some true → b[j]? = some true) :
-    ∀ i, (frameData fam rows a)[i]? = some true → (frameData fam rows b)[i]? = some true := by
+    (h : ∀ j : Nat, a[j]? = some true → b[j]? = some true) :
+    ∀ i : Nat, (frameData fam rows a)[i]? = some true → (frameData fam rows b)[i]? = some true := by
   cases fam <;> simp only [frameData]
   · exact tileRows_subset rows a b hl h
   · exact tileRows_subset rows a b hl h
@@ -360,7 +356,7 @@ where
         | none => Except.error Err.valueError
         | some frames => reshapeAndAddCoil m
             { shape := [frames.length, rowsOf shape, colsOf shape],
-              data := frames.flatten.map fun b => if b then (1 : Int) else 0 } shape) = .ok t) :
+              data := frames.flatten.map fun (b : Bool) => if b then (1 : Int) else 0 } shape) = .ok t) :
       callRejects m.framed shape.length = false ∧
       (∀ p ∈ interior, (acsFrame g.family (rowsOf shape) (colsOf shape) spec p).isSome) ∧
       t.shape = maskShape m shape ∧
@@ -385,7 +381,7 @@ theorem assemble_acs_subset (g : Gen) (m : Mode) (shape : List Nat) (spec : AcsS
     (hlen : ∀ p ∈ interior, p.length = patLen g.family (rowsOf shape) (colsOf shape))
     (ta tm : Tensor Bool) (ha : assemble g m shape spec true interior = .ok ta)
     (hm : assemble g m shape spec false interior = .ok tm) :
-    ta.shape = tm.shape ∧ ∀ i, ta.data[i]? = some true → tm.data[i]? = some true := by
+    ta.shape = tm.shape ∧ ∀ i : Nat, ta.data[i]? = some true → tm.data[i]? = some true := by
   obtain ⟨_, hsome, hsa, hda⟩ := assemble_ok_iff g m shape spec true interior ta ha
   obtain ⟨_, _, hsm, hdm⟩ := assemble_ok_iff g m shape spec false interior tm hm
   refine ⟨by rw [hsa, hsm], ?_⟩
